@@ -186,7 +186,7 @@ theorem dispSwap_shape (c c' : DispSt) (self : Addr) (env : DispEnv) (sender : A
     token handler, and the only hub handler they run is BondRewards -/
 theorem flow_step (s s' : Sys) (m : Msg) (subs : List Msg) (w : Wired19 s) (hf : Flow m = true)
     (hx : s.handle m = .ok (s', subs)) :
-    AllFlow subs ∧ Wired19 s' ∧ s'.bsei = s.bsei ∧ s'.stsei = s.stsei ∧ s'.reg = s.reg ∧
+    AllFlow subs ∧ Wired19 s' ∧ s'.bsei = s.bsei ∧ s'.stsei = s.stsei ∧ s'.reg = s.reg ∧ s'.disp = s.disp ∧
     ((s'.hub = s.hub ∧ ∀ sender funds, m ≠ .wasm sender hubA (.hub .bondRewards) funds) ∨
       ∃ s1 sender funds, m = .wasm sender hubA (.hub .bondRewards) funds ∧
         s.moveFunds sender hubA funds = .ok s1 ∧ s1.hub = s.hub ∧
@@ -203,7 +203,7 @@ theorem flow_step (s s' : Sys) (m : Msg) (subs : List Msg) (w : Wired19 s) (hf :
       · rw [hme] at heq; injection heq with _ e2 _ _
         rcases ht with ht | ht <;> (rw [ht] at e2; cases e2)
     refine ⟨?_, ⟨by rw [h.hub]; exact w.hubDisp, by rw [h.disp]; exact w.dispHub, by rw [h.disp]; exact w.dispRw,
-      by rw [h.disp]; exact w.keeper, wa'⟩, h.bsei, h.stsei, h.reg, Or.inl ⟨h.hub, hne⟩⟩
+      by rw [h.disp]; exact w.keeper, wa'⟩, h.bsei, h.stsei, h.reg, h.disp, Or.inl ⟨h.hub, hne⟩⟩
     rcases hmm with hnw | ⟨a, b', c, d', heq, hbt⟩
     · rw [sent.2 hnw]; intro x hx'; cases hx'
     · subst heq
@@ -257,7 +257,7 @@ theorem flow_step (s s' : Sys) (m : Msg) (subs : List Msg) (w : Wired19 s) (hf :
           obtain ⟨v, a, he, _, _⟩ := hall x hx''
           subst he; rfl
       exact ⟨dl, ⟨by rw [cfg.2.dispatcher]; exact w.hubDisp, by rw [d]; exact w.dispHub, by rw [d]; exact w.dispRw, by rw [d]; exact w.keeper, wa'⟩,
-        b, t, g, Or.inr ⟨s1, sender, funds, rfl, hmv, h1.hub, hx'⟩⟩
+        b, t, g, d, Or.inr ⟨s1, sender, funds, rfl, hmv, h1.hub, hx'⟩⟩
     | _ => simp [Flow] at hf
   | bsei s1 sender funds tm heq _ _ _ _ _ _ _ => subst heq; simp [Flow] at hf
   | stsei blk sender funds tm heq _ _ _ _ _ _ => subst heq; simp [Flow] at hf
@@ -267,9 +267,9 @@ theorem flow_step (s s' : Sys) (m : Msg) (subs : List Msg) (w : Wired19 s) (hf :
     | updateGlobalIndex =>
       have hms : subs = [] := (C14_update_records_bank _ _ _ _ _ _ _ _ hx').1
       refine ⟨(by rw [hms]; intro x hx''; cases hx''), ⟨by rw [h]; exact w.hubDisp, by rw [d]; exact w.dispHub,
-        by rw [d]; exact w.dispRw, by rw [d]; exact w.keeper, wa'⟩, b, t, g, Or.inl ⟨h, fun _ _ hme => by cases hme⟩⟩
+        by rw [d]; exact w.dispRw, by rw [d]; exact w.keeper, wa'⟩, b, t, g, d, Or.inl ⟨h, fun _ _ hme => by cases hme⟩⟩
     | _ => simp [Flow] at hf
-  | disp env sender funds dm heq hx' h b t r g =>
+  | disp env sender funds dm heq _ _ hx' h b t r g =>
     subst heq
     cases dm with
     | swap a bb =>
@@ -280,7 +280,7 @@ theorem flow_step (s s' : Sys) (m : Msg) (subs : List Msg) (w : Wired19 s) (hf :
         exc_norm at hx'
         repeat' (split at hx' <;> try (first | (cases hx'; done) | contradiction))
         all_goals (injection hx' with hx'; injection hx' with e1 _; exact e1.symm)
-      refine ⟨?_, ⟨by rw [h]; exact w.hubDisp, by rw [cs]; exact w.dispHub, by rw [cs]; exact w.dispRw, by rw [cs]; exact w.keeper, wa'⟩, b, t, g, Or.inl ⟨h, fun _ _ hme => by cases hme⟩⟩
+      refine ⟨?_, ⟨by rw [h]; exact w.hubDisp, by rw [cs]; exact w.dispHub, by rw [cs]; exact w.dispRw, by rw [cs]; exact w.keeper, wa'⟩, b, t, g, cs, Or.inl ⟨h, fun _ _ hme => by cases hme⟩⟩
       have shape := dispSwap_shape _ _ _ _ _ _ _ _ hx'
       intro x hx''
       obtain ⟨tg, dn, am, dd, fs, he⟩ := shape x hx''
@@ -294,7 +294,7 @@ theorem flow_step (s s' : Sys) (m : Msg) (subs : List Msg) (w : Wired19 s) (hf :
         · split at hx2
           · cases hx2
           · injection hx2 with hx2; injection hx2 with e1 _; exact e1.symm
-      refine ⟨?_, ⟨by rw [h]; exact w.hubDisp, by rw [cs]; exact w.dispHub, by rw [cs]; exact w.dispRw, by rw [cs]; exact w.keeper, wa'⟩, b, t, g, Or.inl ⟨h, fun _ _ hme => by cases hme⟩⟩
+      refine ⟨?_, ⟨by rw [h]; exact w.hubDisp, by rw [cs]; exact w.dispHub, by rw [cs]; exact w.dispRw, by rw [cs]; exact w.keeper, wa'⟩, b, t, g, cs, Or.inl ⟨h, fun _ _ hme => by cases hme⟩⟩
       simp only [dispExec] at hx'; exc_norm at hx'
       split at hx'
       · cases hx'
@@ -332,7 +332,7 @@ theorem UgiInv.step (s0 s s' : Sys) (m : Msg) (rest subs : List Msg)
     (inv : UgiInv s0 s (m :: rest)) (hx : s.handle m = .ok (s', subs)) : UgiInv s0 s' (subs ++ rest) := by
   have hf : Flow m = true := inv.flow m (List.mem_cons_self ..)
   have hrest : AllFlow rest := fun x hx' => inv.flow x (List.mem_cons_of_mem _ hx')
-  obtain ⟨hsub, w', hb, ht, hg, hhub⟩ := flow_step s s' m subs inv.wired hf hx
+  obtain ⟨hsub, w', hb, ht, hg, _, hhub⟩ := flow_step s s' m subs inv.wired hf hx
   have hbank := inv.bank
   have dcons : delSum (m :: rest) = delSum [m] + delSum rest := by
     have := delSum_append [m] rest; simpa using this
@@ -475,7 +475,7 @@ theorem C19_end_to_end (s s' : Sys) (sender : Addr) (w : Wired19 s)
     | bsei _ _ _ _ heq _ _ _ _ _ _ _ => injection heq with _ e2 _ _; cases e2
     | stsei _ _ _ _ heq _ _ _ _ _ _ => injection heq with _ e2 _ _; cases e2
     | reward _ _ _ _ heq _ _ _ _ _ _ _ _ _ => injection heq with _ e2 _ _; cases e2
-    | disp _ _ _ _ heq _ _ _ _ _ _ => injection heq with _ e2 _ _; cases e2
+    | disp _ _ _ _ heq _ _ _ _ _ _ _ _ => injection heq with _ e2 _ _; cases e2
     | reg _ _ _ _ heq _ _ _ _ _ _ _ _ _ => injection heq with _ e2 _ _; cases e2
     | hub s2 sender' funds hm heq h2 hmv hc hx' b t r d g =>
       injection heq with e1 _ e3 e4
@@ -515,6 +515,362 @@ theorem C19_end_to_end (s s' : Sys) (sender : Addr) (w : Wired19 s)
       simp only [delSum, Nat.add_zero] at hb
       exact ⟨fin.bsei, fin.stsei, fin.reg, fin.claims, fin.prev, hb⟩
 
+/-! #### the delivery clauses: every pending reward is withdrawn, nothing stays in the dispatcher -/
+
+/-- the dispatch message the hub emits last -/
+def dMsg : Msg := .wasm hubA dispA (.disp .dispatch) []
+
+/-- messages that can be pending after the dispatch: the dispatcher's transfers to others, BondRewards,
+    the hub's delegations, the reward contract's index update — none can bring coins to the dispatcher -/
+def post : Msg → Bool
+  | .bankSend src dst _ _ => src == dispA && dst != dispA
+  | .wasm s t (.hub .bondRewards) _ => s == dispA && t == hubA
+  | .delegate d _ _ => d == hubA
+  | .wasm s t (.reward .updateGlobalIndex) f => s == dispA && t == rewardA && f.isEmpty
+  | _ => false
+
+theorem sentOf_append (self : Addr) (d : Denom) (x y : List Msg) :
+    sentOf self d (x ++ y) = sentOf self d x + sentOf self d y := by
+  induction x with
+  | nil => simp [sentOf]
+  | cons m ms ih => cases m <;> simp only [List.cons_append, sentOf, ih] <;> omega
+
+theorem sentOf_notFrom (self : Addr) (d : Denom) (q : List Msg) (h : ∀ x ∈ q, x.sentFrom ≠ self) :
+    sentOf self d q = 0 := by
+  induction q with
+  | nil => rfl
+  | cons m ms ih =>
+    have hm := h m (List.mem_cons_self ..)
+    have r := ih (fun x hx => h x (List.mem_cons_of_mem _ hx))
+    cases m <;> simp_all [sentOf, Msg.sentFrom]
+
+structure DeliverInv (s0 s : Sys) (q : List Msg) : Prop where
+  base : UgiInv s0 s q
+  cfg : s.disp = s0.disp
+  pend : ∀ v ∈ valUniverse, s0.chain.delegSet v = true →
+    (∀ d ∈ ([0, 1, 2] : List Denom), s.chain.pending v d = 0) ∨ Msg.withdrawReward hubA v ∈ q
+  phase : (∃ pre, q = pre ++ [dMsg]) ∨
+    ((∀ x ∈ q, post x = true) ∧
+      s.chain.bank dispA s0.disp.stDenom = sentOf dispA s0.disp.stDenom q ∧
+      s.chain.bank dispA s0.disp.bDenom = sentOf dispA s0.disp.bDenom q)
+
+theorem coinMsgs_post (c : DispSt) (x : Nat) (hh : c.hub = hubA) (hk : c.keeper ≠ dispA) (hr : c.rewardContract ≠ dispA) :
+    (∀ ms, coinMsgsB c dispA x = .ok ms → ∀ m ∈ ms, post m = true) ∧
+    (∀ ms, coinMsgsSt c dispA x = .ok ms → ∀ m ∈ ms, post m = true) := by
+  constructor
+  · intro ms hx; unfold coinMsgsB at hx; exc_split at hx
+    · intro m hm; cases hm
+    · intro m hm; simp at hm; rcases hm with rfl | rfl <;> simp [post, hk, hr]
+  · intro ms hx; unfold coinMsgsSt at hx; exc_split at hx
+    · intro m hm; cases hm
+    · intro m hm; simp at hm; subst hm; simp [post, hk]
+    · intro m hm; simp at hm; rcases hm with rfl | rfl
+      · simp [post, hk]
+      · simp [post, hh]
+
+theorem DeliverInv.step (s0 s s' : Sys) (m : Msg) (rest subs : List Msg)
+    (hk : s0.disp.keeper ≠ dispA) (hrate : s0.disp.keeperRate ≤ D) (hden : s0.disp.stDenom ≠ s0.disp.bDenom)
+    (inv : DeliverInv s0 s (m :: rest)) (hx : s.handle m = .ok (s', subs)) : DeliverInv s0 s' (subs ++ rest) := by
+  have hf : Flow m = true := inv.base.flow m (List.mem_cons_self ..)
+  have w := inv.base.wired
+  obtain ⟨hsub, w', _, _, _, hdisp, hhub⟩ := flow_step s s' m subs w hf hx
+  have base' := UgiInv.step s0 s s' m rest subs inv.base hx
+  have cfg' : s'.disp = s0.disp := hdisp.trans inv.cfg
+  have sent := handle_sentBy s s' m subs hx
+  -- pending rewards
+  have pend' : ∀ v ∈ valUniverse, s0.chain.delegSet v = true →
+      (∀ d ∈ ([0, 1, 2] : List Denom), s'.chain.pending v d = 0) ∨ Msg.withdrawReward hubA v ∈ subs ++ rest := by
+    intro v hu hv
+    by_cases hmw : ∃ d v', m = .withdrawReward d v'
+    · obtain ⟨d0, v', hme⟩ := hmw
+      subst hme
+      have hd0 : d0 = hubA := by simpa [Flow] using hf
+      subst hd0
+      have pw := C19_withdraw_reward_pays_all s s' v' subs hx
+      by_cases hvv : v = v'
+      · subst hvv; exact Or.inl pw.2.1
+      · rcases inv.pend v hu hv with h0 | h0
+        · left; intro d hd; rw [pw.2.2.2.2.2.2.2.2 v hvv]; exact h0 d hd
+        · right
+          rcases List.mem_cons.mp h0 with h1 | h1
+          · injection h1 with _ e2; exact absurd e2 hvv
+          · exact List.mem_append_right _ h1
+    · have hp := handle_pending s s' m subs hx (fun d v' h => hmw ⟨d, v', h⟩)
+      rcases inv.pend v hu hv with h0 | h0
+      · left; intro d hd; rw [hp]; exact h0 d hd
+      · right
+        rcases List.mem_cons.mp h0 with h1 | h1
+        · exact absurd ⟨hubA, v, h1.symm⟩ hmw
+        · exact List.mem_append_right _ h1
+  refine ⟨base', cfg', pend', ?_⟩
+  rcases inv.phase with ⟨pre, hq⟩ | ⟨hpost, hst, hb⟩
+  · cases pre with
+    | cons p pre' =>
+      -- still before the dispatch: it stays last
+      simp only [List.cons_append] at hq
+      injection hq with _ h2
+      exact Or.inl ⟨subs ++ pre', by rw [h2, List.append_assoc]⟩
+    | nil =>
+      -- the dispatch itself: what it emits adds up to exactly what the dispatcher holds
+      simp only [List.nil_append] at hq
+      injection hq with h1 h2
+      subst h1; subst h2
+      right
+      simp only [dMsg] at hx
+      obtain ⟨s1, hmv, hch⟩ := handle_wasm_chain_eq s s' hubA dispA (.disp .dispatch) [] subs hx
+      simp only [Sys.moveFunds] at hmv
+      injection hmv with hmv; subst hmv
+      cases handle_touch s s' _ subs hx with
+      | none _ hmm _ _ =>
+        rcases hmm with h0 | ⟨_, _, _, _, heq, ht⟩
+        · exact absurd rfl (h0 _ _ _ _)
+        · injection heq with _ e2 _ _
+          rcases ht with ht | ht <;> (rw [ht] at e2; cases e2)
+      | hub _ _ _ _ heq _ _ _ _ _ _ _ _ _ => injection heq with _ e2 _ _; cases e2
+      | bsei _ _ _ _ heq _ _ _ _ _ _ _ => injection heq with _ e2 _ _; cases e2
+      | stsei _ _ _ _ heq _ _ _ _ _ _ => injection heq with _ e2 _ _; cases e2
+      | reward _ _ _ _ heq _ _ _ _ _ _ _ _ _ => injection heq with _ e2 _ _; cases e2
+      | reg _ _ _ _ heq _ _ _ _ _ _ _ _ _ => injection heq with _ e2 _ _; cases e2
+      | disp s1 sender funds dm heq hmv' hch' hx' _ _ _ _ _ =>
+        injection heq with e1 _ e3 e4
+        injection e3 with e3
+        subst e1; subst e3; subst e4
+        simp only [Sys.moveFunds] at hmv'
+        injection hmv' with hmv'; subst hmv'
+        have hms : dispatchMsgs s.disp dispA (s.chain.bank dispA s.disp.stDenom) (s.chain.bank dispA s.disp.bDenom) = .ok subs := by
+          simp only [dispExec] at hx'; exc_norm at hx'
+          split at hx'
+          · cases hx'
+          · split at hx'
+            · cases hx'
+            · rename_i ms' hd
+              injection hx' with hx'; injection hx' with _ h2; subst h2; exact hd
+        have hc0 := inv.cfg
+        obtain ⟨ms, h1, h2, h3, _⟩ := C17_dispatch_conserves s.disp dispA (s.chain.bank dispA s.disp.stDenom)
+          (s.chain.bank dispA s.disp.bDenom) (by rw [hc0]; exact hrate) (by rw [hc0]; exact hden)
+        rw [hms] at h1; injection h1 with h1; subst h1
+        refine ⟨?_, ?_, ?_⟩
+        · -- everything it emits is a post-dispatch message
+          rw [List.append_nil]
+          have hms2 := hms
+          unfold dispatchMsgs at hms2
+          split at hms2
+          · cases hms2
+          · rename_i m1 hm1
+            split at hms2
+            · cases hms2
+            · rename_i m2 hm2
+              injection hms2 with hms2; subst hms2
+              have cp := coinMsgs_post s.disp
+              intro x hx''
+              rcases List.mem_append.mp hx'' with h | h
+              · rcases List.mem_append.mp h with h | h
+                · exact (cp _ w.dispHub (by rw [hc0]; exact hk) (by rw [w.dispRw]; decide)).1 m1 hm1 x h
+                · exact (cp _ w.dispHub (by rw [hc0]; exact hk) (by rw [w.dispRw]; decide)).2 m2 hm2 x h
+              · simp at h; subst h; simp [post, w.dispRw]
+        · rw [List.append_nil, hch', ← hc0]; exact h3.symm
+        · rw [List.append_nil, hch', ← hc0]; exact h2.symm
+  · -- after the dispatch: every message takes from the dispatcher exactly what it names
+    right
+    have hm : post m = true := hpost m (List.mem_cons_self ..)
+    have hrestp : ∀ x ∈ rest, post x = true := fun x hx' => hpost x (List.mem_cons_of_mem _ hx')
+    have scons : ∀ d, sentOf dispA d (m :: rest) = sentOf dispA d [m] + sentOf dispA d rest := by
+      intro d; have := sentOf_append dispA d [m] rest; simpa using this
+    rw [scons] at hst hb
+    -- generic conclusion
+    have fin : (∀ x ∈ subs, post x = true) → (∀ x ∈ subs, x.sentFrom ≠ dispA) →
+        (∀ d, s'.chain.bank dispA d + sentOf dispA d [m] = s.chain.bank dispA d) →
+        (∀ x ∈ subs ++ rest, post x = true) ∧
+          s'.chain.bank dispA s0.disp.stDenom = sentOf dispA s0.disp.stDenom (subs ++ rest) ∧
+          s'.chain.bank dispA s0.disp.bDenom = sentOf dispA s0.disp.bDenom (subs ++ rest) := by
+      intro p1 p2 p3
+      have z := fun d => sentOf_notFrom dispA d subs p2
+      refine ⟨?_, ?_, ?_⟩
+      · intro x hx'
+        rcases List.mem_append.mp hx' with h | h
+        · exact p1 x h
+        · exact hrestp x h
+      · rw [sentOf_append, z]; have := p3 s0.disp.stDenom; omega
+      · rw [sentOf_append, z]; have := p3 s0.disp.bDenom; omega
+    cases m with
+    | bankSend src dst d amt =>
+      have hs : src = dispA ∧ dst ≠ dispA := by simpa [post] using hm
+      obtain ⟨hs1, hs2⟩ := hs
+      subst hs1
+      have hsubs : subs = [] := sent.2 (fun _ _ _ _ h => by cases h)
+      subst hsubs
+      refine fin (fun _ h => by cases h) (fun _ h => by cases h) ?_
+      intro d'
+      simp only [Sys.handle] at hx; exc_norm at hx
+      split at hx
+      · cases hx
+      · rename_i s1 h1
+        have bs := bankMove_src s s1 dispA dst d amt (fun h => hs2 h.symm) h1
+        cases hx
+        by_cases hd : d' = d
+        · subst hd; simp only [sentOf, and_self, if_true, Nat.add_zero]; exact bs.1
+        · simp only [sentOf, hd, and_false, if_false, Nat.add_zero]
+          have hd' : ¬ d = d' := fun h => hd h.symm
+          simp only [hd', and_false, if_false, Nat.add_zero]
+          exact bs.2 d' hd
+    | delegate who v amt =>
+      have hsubs : subs = [] := sent.2 (fun _ _ _ _ h => by cases h)
+      subst hsubs
+      have hw : who = hubA := by simpa [post] using hm
+      subst hw
+      refine fin (fun _ h => by cases h) (fun _ h => by cases h) ?_
+      intro d'
+      simp only [Sys.handle] at hx; exc_norm at hx; exc_split at hx
+      simp [sentOf, Sys.setBank, upd, show ¬ dispA = hubA from by decide]
+    | wasm a b c f =>
+      obtain ⟨s1, hmv, hch⟩ := handle_wasm_chain_eq s s' a b c f subs hx
+      cases c with
+      | hub hm' =>
+        cases hm' with
+        | bondRewards =>
+          have hab : a = dispA ∧ b = hubA := by simpa [post] using hm
+          obtain ⟨ha, hbb⟩ := hab
+          subst ha; subst hbb
+          have out := moveFunds_out_eq dispA hubA (by decide) f s s1 hmv
+          have sb := sent.1 _ _ _ _ rfl
+          refine fin ?_ (fun x hx' => by rw [sb x hx']; decide) ?_
+          · -- its Delegate messages
+            rcases hhub with ⟨_, hne⟩ | ⟨s2, sender2, funds2, heq2, _, _, hxx⟩
+            · exact absurd rfl (hne _ _)
+            · injection heq2 with e1 _ _ e4
+              subst e1; subst e4
+              simp only [hubExec] at hxx; split at hxx
+              · cases hxx
+              · obtain ⟨p, st, _, _, _, hd, _⟩ := HubSt.bondR_spec _ _ _ _ _ _ hxx
+                obtain ⟨_, reg, vs, _, _, hall⟩ := C02_bond_delegated_in_full s.hub s2.hubEnv p subs hd
+                intro x hx''
+                obtain ⟨v, a, he, _, _⟩ := hall x hx''
+                subst he; rfl
+          · intro d'
+            rw [hch]
+            simp only [sentOf, if_true, Nat.add_zero]
+            exact out d'
+        | _ => simp [post] at hm
+      | reward rm =>
+        cases rm with
+        | updateGlobalIndex =>
+          have hab : (a = dispA ∧ b = rewardA) ∧ f = [] := by simpa [post] using hm
+          obtain ⟨⟨ha, hbb⟩, hff⟩ := hab
+          subst ha; subst hbb; subst hff
+          simp only [Sys.moveFunds] at hmv
+          injection hmv with hmv; subst hmv
+          have hsubs : subs = [] := by
+            cases handle_touch s s' _ subs hx with
+            | reward s2 _ _ _ heq _ _ _ hx' _ _ _ _ _ =>
+              injection heq with _ _ e3 _
+              injection e3 with e3; subst e3
+              exact (C14_update_records_bank _ _ _ _ _ _ _ _ hx').1
+            | none _ hmm _ _ =>
+              rcases hmm with h0 | ⟨_, _, _, _, heq, ht⟩
+              · exact absurd rfl (h0 _ _ _ _)
+              · injection heq with _ e2 _ _
+                rcases ht with ht | ht <;> (rw [ht] at e2; cases e2)
+            | hub _ _ _ _ heq _ _ _ _ _ _ _ _ _ => injection heq with _ e2 _ _; cases e2
+            | bsei _ _ _ _ heq _ _ _ _ _ _ _ => injection heq with _ e2 _ _; cases e2
+            | stsei _ _ _ _ heq _ _ _ _ _ _ => injection heq with _ e2 _ _; cases e2
+            | disp _ _ _ _ heq _ _ _ _ _ _ _ _ => injection heq with _ e2 _ _; cases e2
+            | reg _ _ _ _ heq _ _ _ _ _ _ _ _ _ => injection heq with _ e2 _ _; cases e2
+          subst hsubs
+          refine fin (fun _ h => by cases h) (fun _ h => by cases h) ?_
+          intro d'
+          rw [hch]; simp [sentOf]
+        | _ => simp [post] at hm
+      | _ => simp [post] at hm
+    | _ => simp [post] at hm
+
+/-- **The whole UpdateGlobalIndex transaction, the delivery clauses.** If the transaction succeeds
+    in a wired system (keeper rate at most 1, the two reward denoms distinct, the keeper not the
+    dispatcher itself), then at the end every reward that was pending on a validator the hub
+    delegated to has been withdrawn, and the dispatcher holds nothing of either reward denom: every
+    coin it held or received was sent on. -/
+theorem C19_end_to_end_delivery (s s' : Sys) (sender : Addr) (w : Wired19 s)
+    (hk : s.disp.keeper ≠ dispA) (hrate : s.disp.keeperRate ≤ D) (hden : s.disp.stDenom ≠ s.disp.bDenom)
+    (hx : Sys.run 400 s [.wasm sender hubA (.hub .updateGlobalIndex) []] = .ok s') :
+    (∀ v ∈ valUniverse, s.chain.delegSet v = true → ∀ d ∈ ([0, 1, 2] : List Denom), s'.chain.pending v d = 0) ∧
+    s'.chain.bank dispA s.disp.stDenom = 0 ∧ s'.chain.bank dispA s.disp.bDenom = 0 := by
+  simp only [Sys.run] at hx
+  split at hx
+  · cases hx
+  · rename_i s1 subs h1
+    cases handle_touch s s1 _ subs h1 with
+    | none _ hm' _ _ =>
+      rcases hm' with hm' | ⟨_, _, _, _, heq, ht⟩
+      · exact absurd rfl (hm' _ _ _ _)
+      · injection heq with _ e2 _ _
+        rcases ht with ht | ht <;> (rw [ht] at e2; cases e2)
+    | bsei _ _ _ _ heq _ _ _ _ _ _ _ => injection heq with _ e2 _ _; cases e2
+    | stsei _ _ _ _ heq _ _ _ _ _ _ => injection heq with _ e2 _ _; cases e2
+    | reward _ _ _ _ heq _ _ _ _ _ _ _ _ _ => injection heq with _ e2 _ _; cases e2
+    | disp _ _ _ _ heq _ _ _ _ _ _ _ _ => injection heq with _ e2 _ _; cases e2
+    | reg _ _ _ _ heq _ _ _ _ _ _ _ _ _ => injection heq with _ e2 _ _; cases e2
+    | hub s2 sender' funds hm heq h2 hmv hc hx' b t r d g =>
+      injection heq with e1 _ e3 e4
+      injection e3 with e3
+      subst e1; subst e3; subst e4
+      simp only [Sys.moveFunds] at hmv
+      injection hmv with hmv; subst hmv
+      have hp : s.hub.isPaused = false := by
+        simp only [hubExec] at hx'
+        split at hx'
+        · cases hx'
+        · rename_i h; simpa using h
+      simp only [hubExec, hp, Bool.false_eq_true, if_false] at hx'
+      obtain ⟨dsp, hdsp, _, hms, hh⟩ := C19_hub_update_global s.hub s1.hub s.hubEnv sender subs hx'
+      have hd : dsp = dispA := by rw [w.hubDisp] at hdsp; injection hdsp with h; exact h.symm
+      subst hd
+      have hflow : AllFlow subs := by
+        rw [hms]
+        intro x hx''
+        simp only [List.mem_append, List.mem_map, List.mem_cons, List.mem_nil_iff, or_false] at hx''
+        rcases hx'' with ⟨dd, _, rfl⟩ | rfl | rfl <;> rfl
+      have base1 : UgiInv s s1 (subs ++ []) := by
+        rw [List.append_nil]
+        refine ⟨⟨by rw [hh]; exact w.hubDisp, by rw [d]; exact w.dispHub, by rw [d]; exact w.dispRw,
+          by rw [d]; exact w.keeper, by rw [hc.2.2]; exact w.wa⟩, hflow, b, t, g,
+          by rw [hh]; exact ⟨⟨rfl, rfl, rfl, rfl, rfl, rfl, rfl⟩, rfl⟩, by rw [hh], ?_⟩
+        rw [hc.2.2]
+        have : delSum subs = 0 := by
+          rw [hms]
+          refine (noStake_sums _ ?_).1
+          intro x hx''
+          simp only [List.mem_append, List.mem_map, List.mem_cons, List.mem_nil_iff, or_false] at hx''
+          rcases hx'' with ⟨dd, _, rfl⟩ | rfl | rfl <;> rfl
+        rw [this]; rfl
+      have inv1 : DeliverInv s s1 (subs ++ []) := by
+        refine ⟨base1, d, ?_, ?_⟩
+        · -- a withdrawal for every validator the hub delegates to is in the queue
+          intro v hu hv
+          right
+          rw [List.append_nil, hms]
+          apply List.mem_append_left
+          simp only [List.mem_map]
+          refine ⟨(v, s.chain.deleg v), ?_, rfl⟩
+          show (v, s.chain.deleg v) ∈ s.delegationsOf hubA
+          unfold Sys.delegationsOf
+          simp only [if_true, List.mem_map, List.mem_filter]
+          exact ⟨v, ⟨hu, hv⟩, rfl⟩
+        · left
+          rw [List.append_nil, hms]
+          exact ⟨(s.hubEnv.delegations.map fun d => Msg.withdrawReward hubA d.1) ++
+            [.wasm hubA dispA (.disp (.swap s.hub.bBond s.hub.sBond)) []], by rw [List.append_assoc]; rfl⟩
+      have fin := run_inv2 (DeliverInv s) (fun a m r a' sb => DeliverInv.step s a a' m r sb hk hrate hden) 399 s1 _ s' inv1 hx
+      refine ⟨?_, ?_, ?_⟩
+      · intro v hu hv dd hdd
+        rcases fin.pend v hu hv with h0 | h0
+        · exact h0 dd hdd
+        · cases h0
+      · rcases fin.phase with ⟨pre, hq⟩ | ⟨_, h1, _⟩
+        · cases pre <;> simp at hq
+        · simpa [sentOf] using h1
+      · rcases fin.phase with ⟨pre, hq⟩ | ⟨_, _, h2⟩
+        · cases pre <;> simp at hq
+        · simpa [sentOf] using h2
+
 /-! Non-vacuity: a wired state with 1000 staked and 500 of pending rewards; the whole update
     succeeds (withdrawal, swap check, dispatch: 25 to the keeper, 475 re-bonded and delegated). -/
 def rewardsPending : Sys :=
@@ -526,5 +882,10 @@ def rewardsPending : Sys :=
 
 example : Wired19 rewardsPending := ⟨rfl, rfl, rfl, by decide, by decide⟩
 example : ∃ s', Sys.run 400 rewardsPending [.wasm 3 hubA (.hub .updateGlobalIndex) []] = .ok s' := ⟨_, rfl⟩
+/-- the extra premises of `C19_end_to_end_delivery` hold in that state, its validator is in the
+    universe and delegated to, and it did have rewards pending -/
+example : rewardsPending.disp.keeper ≠ dispA ∧ rewardsPending.disp.keeperRate ≤ D ∧
+    rewardsPending.disp.stDenom ≠ rewardsPending.disp.bDenom ∧ (201 : Addr) ∈ valUniverse ∧
+    rewardsPending.chain.delegSet 201 = true ∧ rewardsPending.chain.pending 201 0 = 500 := by decide
 
 end Krp
